@@ -51,7 +51,7 @@ def run_trace_spec(d, module, cfg_text, timeout=3000):
 # C07
 # ----------------------------------------------------------------------------------------------
 
-LANES_CFG = ("SPECIFICATION TraceSpec\nCONSTANTS\n  MaxD = 0\n  PairD = 0\n  PairLeaves = {}\n  TripleElemSet = {}\n"
+LANES_CFG = ("SPECIFICATION TraceSpec\nCONSTANTS\n  MaxD = 0\n  PairD = 0\n  PairLeaves = {}\n  TripleElemSet = {}\n  FeeVars = {}\n  GasVars = {}\n"
              "  CheckIds = %s\nINVARIANT Coverage\nPOSTCONDITION TraceAccepted\nCHECK_DEADLOCK FALSE\n")
 PRE_ANTE = ("undecodable-ext", "no-messages")
 
@@ -224,6 +224,12 @@ def vauth_design(v, w, tier):
     if r["violated"]:
         raise Infra("design model Vauth_mc violates one of its own laws (specification bug):\n" + r["out"][-3000:])
     v.add_mc(r)
+    if tier == "thorough":
+        rt = vlib.tlc(d, "Vauth_mc", "Vauth_mc_thorough.cfg", workers=8, timeout=6000)
+        if rt["violated"]:
+            raise Infra("design model Vauth_mc (thorough constants) violates one of its own laws:\n" + rt["out"][-3000:])
+        v.add_mc(rt)
+        log("design run Vauth_mc/thorough constants (6 addresses): %d distinct states, %d transitions, all laws hold" % (rt["distinct"], rt["generated"]))
     m = re.findall(r'<<"B1", (\d+), (\d+)>>', r["out"])
     if not m:
         raise Infra("design run wrote no B1 behaviours:\n" + r["out"][-2000:])
@@ -357,36 +363,42 @@ def check_c16(pid, tier, seed, replay):
         v.cov["classes"] = cov
         v.cov["behaviours"] = {"b1_enumerated": len(b1), "b2_simulated": len(b2), "operations_executed_on_real_app": nops,
                                "lines_judged_by_tlc": len(lines)}
-        v.cov["distinct_nontrivial"] = len([k for k in cov if not k.startswith("Submit.refused.forged")])
+        state_dep = ("already-proven", "cannot-pay", "proven-target", "account-exists", "sametx-proven")
+        v.cov["distinct_nontrivial"] = sum(n for k, n in cov.items() if k.split(".", 2)[2].split(":")[0] in state_dep)
+        v.cov["distinct_classes"] = len(cov)
         v.cov["rule"] = ("behaviours of Vauth.tla executed against the real application, one real transaction per operation: B1 = every "
                          "operation of the alphabet (3 submitters x 5 targets x 12 signature kinds; 3 vesting kinds x 5 targets x 7 routes) after "
-                         "each of 4 prefixes; B2 = TLC -simulate behaviours; distinct_nontrivial = number of distinct (operation, outcome, "
-                         "model-reason) classes exercised other than plainly forged signatures (classes counted by TraceVauth)")
+                         "each of 4 prefixes; B2 = TLC -simulate behaviours; distinct_nontrivial = operations executed on the real "
+                         "application whose admitted outcome depends on the state built by earlier operations of the behaviour (already proven, "
+                         "submitter exhausted, proven target, account exists, proof in the same tx), counted by TraceVauth per class")
         v.cov["exhaustive"] = False
         v.cov["samples"] = [json.loads(x) for x in lines[1:3]] + [json.loads(lines[len(lines) // 2])]
-        # binding self-test: (1) pretend a burn did not happen, (2) pretend a stored proof changed
-        a, b_ = behaviour_of_line(lines, 1)
+        # binding self-test: (1) pretend the submitter kept his unit, (2) pretend a stored proof changed. The original and the
+        # corrupted behaviour are judged in one TLC run; the corrupted line must break a law the original line does not.
         k = next(i for i, x in enumerate(lines) if '"ev":"Op"' in x and '"out":"ok"' in x and '"op":"Submit"' in x)
         a, b_ = behaviour_of_line(lines, k + 1)
-        t1 = list(lines[a:b_ + 1])
+        t0 = list(lines[a:b_ + 1])
+        t1 = list(t0)
         e = json.loads(t1[k - a])
-        e["st"]["supplyQ"] += 1
+        e["st"]["q"][e["op"]["sub"]] += 1
         t1[k - a] = json.dumps(e)
-        k2 = next(i for i, x in enumerate(lines) if '"ev":"Op"' in x and '"already-proven' not in x and json.loads(x)["i"] >= 2
-                  and json.loads(lines[i - 1]).get("ev") == "Op" and "valid" in json.loads(lines[i - 1])["st"]["proof"].values())
+        k2 = next(i for i, x in enumerate(lines) if '"ev":"Op"' in x and '"op":"Create"' in x and json.loads(x)["i"] >= 2
+                  and "valid" in json.loads(lines[i - 1])["st"]["proof"].values())
         a2, b2_ = behaviour_of_line(lines, k2 + 1)
-        t2 = list(lines[a2:b2_ + 1])
+        t2o = list(lines[a2:b2_ + 1])
+        t2 = list(t2o)
         e = json.loads(t2[k2 - a2])
         victim = next(n for n, tok in json.loads(t2[k2 - a2 - 1])["st"]["proof"].items() if tok == "valid")
         e["st"]["proof"][victim] = "valid2"
         t2[k2 - a2] = json.dumps(e)
-        errs2, _, _ = vauth_validate(w, "selftest", t1 + t2)
-        want = {(k - a + 1, "CostExact"), (len(t1) + k2 - a2 + 1, "ProofsFinal")}
-        got = {(ln, g) for ln, g, _ in errs2}
-        if not want <= got:
-            raise Infra("binding self-test failed: corrupted supply / proof at %s, TLC reported %s" % (sorted(want), sorted(got)))
-        v.cov["selftest"] = ("recorded supply after an executed submission raised by one unit -> CostExact; recorded proof of a proven address "
-                             "replaced -> ProofsFinal; both rejected by TLC at the corrupted lines")
+        errs2, _, _ = vauth_validate(w, "selftest", t0 + t1 + t2o + t2)
+        at = {ln: (g, dt) for ln, g, dt in errs2}
+        o1, c1 = at.get(k - a + 1), at.get(len(t0) + k - a + 1)
+        o2, c2 = at.get(len(t0) + len(t1) + k2 - a2 + 1), at.get(len(t0) + len(t1) + len(t2o) + k2 - a2 + 1)
+        if c1 is None or c1 == o1 or c1[0] != "CostExact" or c2 is None or c2 == o2 or c2[0] != "ProofsFinal":
+            raise Infra("binding self-test failed: corrupted holder units -> %s (original %s), corrupted stored proof -> %s (original %s)" % (c1, o1, c2, o2))
+        v.cov["selftest"] = ("recorded holding of the submitter after an executed submission raised by one unit -> %s/%s; recorded proof of a "
+                             "proven address replaced -> %s/%s; both rejected by TLC at the corrupted lines" % (c1 + c2))
         log("binding self-test: " + v.cov["selftest"])
         v.assumptions = [
             "balances and supply are compared in whole units of the 1e18 cost plus a remainder (< 2^31) that only ordinary fees and vesting "
